@@ -71,8 +71,8 @@ impl Scenario for Timeouts {
 
     fn budget(&self, tier: Tier) -> u64 {
         match tier {
-            Tier::Quick => 20_000,
-            Tier::Thorough => 2_000_000,
+            Tier::Quick => 100_000,
+            Tier::Thorough => 8_000_000,
         }
     }
 
@@ -639,11 +639,29 @@ fn judge(plan: &TPlan, o: &Obs, out: &mut Outcome) {
             ));
             out.nontrivial = true;
             // planned silences (between consecutive planned transfers): never longer than T - 3 ms?
-            let max_gap = plan.xfers.iter().map(|x| x.after_us).max().unwrap_or(0);
+            // A zero-length transfer (an empty DATA frame, say) moves no data: the statement
+            // neither requires nor forbids that it counts as activity. Silences are measured
+            // between transfers that carry data; an empty one only widens the upper bound.
+            let mut max_gap = 0u64;
+            let mut since_real = 0u64;
+            let mut at = o.t_established;
+            let mut last_real_planned = o.t_established;
+            let mut last_empty: Option<u64> = None;
+            for x in &plan.xfers {
+                at += x.after_us;
+                since_real += x.after_us;
+                if x.len > 0 {
+                    max_gap = max_gap.max(since_real);
+                    since_real = 0;
+                    last_real_planned = at;
+                } else {
+                    last_empty = Some(at);
+                }
+            }
             let kept_alive = max_gap + 3 * ms < t;
             // (1) never closed by the timer while transfers come at least every T
             if kept_alive && !stalled {
-                let planned_end: u64 = o.t_established + plan.xfers.iter().map(|x| x.after_us).sum::<u64>();
+                let planned_end: u64 = last_real_planned;
                 let failed: Vec<_> = o.sent.iter().filter(|s| !s.3).collect();
                 let delivered = o.host_rx_times.iter().map(|x| x.1).sum::<usize>()
                     + o.client_rx_times.iter().map(|x| x.1).sum::<usize>();
@@ -693,7 +711,10 @@ fn judge(plan: &TPlan, o: &Obs, out: &mut Outcome) {
                     format!("T = {} us; last activity at {} us; tunnel still open {} us later", t, last, 2 * t + 1_000_000),
                 ),
                 Some(c) => {
-                    if c > last + 2 * t + 5 * ms {
+                    // anything a peer handed to the endpoint may have been taken in as activity
+                    // even if it could not be delivered (destination not reading)
+                    let last_offered = o.sent.iter().filter(|x| x.3).map(|x| x.0).max().unwrap_or(0);
+                    if c > last.max(last_empty.unwrap_or(0)).max(last_offered) + 2 * t + 5 * ms {
                         out.violate(
                             "C14",
                             format!("idle:{}:closed-late", proto),
